@@ -1,4 +1,10 @@
 // K-refine obligations for RxError (C04): the payload travels by shared ownership; clone/downcast give back the very value.
+
+/// object identity of two RxError values (used by every harness module to identify error payloads)
+pub(crate) fn same_error(a: &RxError, b: &RxError) -> bool {
+  Arc::ptr_eq(&a.inner, &b.inner)
+}
+
 #[kani::proof]
 fn k_err_payload_identity() {
   let v: u32 = kani::any();
